@@ -209,7 +209,7 @@ def run(ctx):
     ]
     ctx.assumptions += ["documents < 4 GiB; generated queries capture every pattern root as @r (needed to decide clause b)"]
     ctx.regen()
-    ctx.prove(["TsVerif.C11.Props"], "TsVerif/C11/Audit.lean")
+    ctx.prove(["TsVerif.C11.Props", "TsVerif.C11.ViewProps"], "TsVerif/C11/Audit.lean")
     driver = ctx.build_driver("tsv-c11")
     explorer = ctx.cargo_bin("c11")
     if not (explorer and os.path.exists(driver)):
